@@ -399,7 +399,7 @@ static Verdict run_C05(const Scn &s) {
 
 // ---------------------------------------------------------------- C06
 
-static long plan_C06(const std::string &tier) { return (tier == "quick" ? 300 : 20000) * 193; }
+static long plan_C06(const std::string &tier) { return (tier == "quick" ? 300 : 20000) * 194; }
 
 static void gen_C06_like(const std::string &tier, uint64_t seed, long idx, Scn &s, const char *prop) {
   s.prop = prop; s.tier = tier; s.seed = seed; s.index = idx;
@@ -409,6 +409,13 @@ static void gen_C06_like(const std::string &tier, uint64_t seed, long idx, Scn &
   fill_file_cfg(gf, s, 4, 4);
   s.i["file"] = file;
   Rng g(Rng::mix(seed, 0xC06F, (uint64_t)idx));
+  if (j-- == 0) {
+    // the same question on the command-line path (key given as a string), for every 4th file (quick) / 16th file (thorough):
+    // 128 neighbours x {-v, -d}, each in a process of its own
+    if (std::string(prop) == "C06" && file % (tier == "quick" ? 4 : 16) == 0) s.i["cli"] = 1;
+    else s.faults.push_back(mkrec("keyzero", {}));
+    return;
+  }
   if (j < 128) s.faults.push_back(mkrec("keyflip", {j}));
   else if (j < 192) { Bytes k(16); g.bytes(k.data(), 16); s.faults.push_back(mkrec("keyset", {}, k)); }
   else s.faults.push_back(mkrec("keyzero", {}));
@@ -416,6 +423,7 @@ static void gen_C06_like(const std::string &tier, uint64_t seed, long idx, Scn &
 static void gen_C06(const std::string &tier, uint64_t seed, long idx, Scn &s) { gen_C06_like(tier, seed, idx, s, "C06"); }
 
 static Verdict run_C06(const Scn &s) {
+  if (s.geti("cli", 0)) return run_C06_cli(s);
   Baseline B = make_baseline(s, false);
   if (!B.ok) return skipv(B.why);
   uint8_t key[16];
